@@ -103,3 +103,10 @@ claim("C03", "exploration",
       "this through the real CLI (`schema inspect`, `{{ sql . }}`, `schema diff`, `schema apply`).",
       "SQLite only; inline UNIQUE and a named unique index over the same columns are identified; the harness's projection is trusted (self-checked against the model state).",
       "3 C03")
+claim("C14", "model_checking",
+      "TLA+ model of the dev-database protocol (DevDB.tla) checked by TLC; every --dev-url command run on the real CLI for every dev-database state x failing replay position, observations validated by TLC (DevDBMonitor.tla)",
+      "TLC checks Untouched / HandedBackEmpty / RefusedIfDirty / NoWriteBeforeCheck / DirOnlyByDiff on every behaviour of DevDB.tla (any command, any failing statement). The real CLI runs migrate diff / validate / lint and schema apply / diff "
+      "(SQL and HCL sources) against directories whose k-th statement is invalid for every k (tables, indexes, views, triggers, drops in several orders) with the dev database absent, empty, holding one table, two tables, or only a view; the dev "
+      "database (sqlite_master + full dump) and the directory bytes are compared before and after and TLC evaluates the formulas on each invocation.",
+      "Trusted: python's sqlite3 reader; SQLite dev databases only; HCL-only sources owe non-interference only on SQLite.",
+      "3 C14")
